@@ -1114,6 +1114,10 @@ func (p *partition) handleReplicationResponse(msg *nats.Msg) int {
 		return 0
 	}
 	offsets, err := p.log.AppendMessageSet(data)
+	if err == commitlog.ErrMalformedMessageSet {
+		p.srv.logger.Warnf("Invalid replication response for partition %s: %s", p, err)
+		return 0
+	}
 	if err != nil {
 		panic(fmt.Errorf("Failed to replicate data to log %s: %v", p, err))
 	}
